@@ -842,16 +842,16 @@ def dur_ns(v):
         return v.fields[0]
     raise Unsupported('expected Duration, got %r' % (v,))
 
-@I.rx(r'^(std|core)::time::Duration::(from_secs|from_millis|from_micros|from_nanos)$')
+@I.rx(r'(^|::)Duration::(from_secs|from_millis|from_micros|from_nanos)$')
 def _dur_from(m, args, ci):
     k = {'from_secs': NANOS, 'from_millis': 1000000, 'from_micros': 1000, 'from_nanos': 1}[ci.name.rsplit('::', 1)[1]]
     return dur(sym.mul(args[0], k))
 
-@I.rx(r'^(std|core)::time::Duration::new$')
+@I.rx(r'(^|::)Duration::new$')
 def _dur_new(m, args, ci):
     return dur(sym.add(sym.mul(args[0], NANOS), args[1]))
 
-@I.rx(r'^(std|core)::time::Duration::(as_secs|as_millis|as_micros|as_nanos|subsec_nanos|subsec_millis)$')
+@I.rx(r'(^|::)Duration::(as_secs|as_millis|as_micros|as_nanos|subsec_nanos|subsec_millis)$')
 def _dur_as(m, args, ci):
     ns = dur_ns(args[0])
     meth = ci.name.rsplit('::', 1)[1]
@@ -862,42 +862,42 @@ def _dur_as(m, args, ci):
         raise Unsupported(ci.name)
     return m.divrem('Div', ns, k, None)
 
-@I.rx(r'^(std|core)::time::Duration::saturating_sub$')
+@I.rx(r'(^|::)Duration::saturating_sub$')
 def _dur_sat_sub(m, args, ci):
     a, b = dur_ns(args[0]), dur_ns(args[1])
     return dur(sym.ite(sym.lt(a, b), 0, sym.sub(a, b)))
 
-@I.rx(r'^(std|core)::time::Duration::saturating_add$')
+@I.rx(r'(^|::)Duration::saturating_add$')
 def _dur_sat_add(m, args, ci):
     a, b = dur_ns(args[0]), dur_ns(args[1])
     mx = (2 ** 64 - 1) * NANOS + 999999999
     s = sym.add(a, b)
     return dur(sym.ite(sym.gt(s, mx), mx, s))
 
-@I.rx(r'^(std|core)::time::Duration::checked_sub$')
+@I.rx(r'(^|::)Duration::checked_sub$')
 def _dur_checked_sub(m, args, ci):
     a, b = dur_ns(args[0]), dur_ns(args[1])
     if m.branch(sym.lt(a, b), 'Duration::checked_sub'):
         return none()
     return some(dur(sym.sub(a, b)))
 
-@I.rx(r'^(std|core)::time::Duration::is_zero$')
+@I.rx(r'(^|::)Duration::is_zero$')
 def _dur_is_zero(m, args, ci):
     return sym.eq(dur_ns(args[0]), 0)
 
-@I.rx(r'^<(std|core)::time::Duration as (PartialOrd|Ord|PartialEq)>::(lt|le|gt|ge|eq|ne)$|^<Duration as (PartialOrd|Ord|PartialEq)>::(lt|le|gt|ge|eq|ne)$')
+@I.rx(r'^<((std|core)::time::)?Duration as (PartialOrd|Ord|PartialEq)>::(lt|le|gt|ge|eq|ne)$')
 def _dur_cmp(m, args, ci):
     a, b = dur_ns(args[0]), dur_ns(args[1])
     f = {'lt': sym.lt, 'le': sym.le, 'gt': sym.gt, 'ge': sym.ge, 'eq': sym.eq, 'ne': sym.ne}[ci.name[-2:]]
     return f(a, b)
 
-@I.rx(r'^(std::time::)?SystemTime::now$')
+@I.rx(r'(^|::)SystemTime::now$')
 def _systime_now(m, args, ci):
     if m.env is None or not hasattr(m.env, 'now_ns'):
         raise Unsupported('SystemTime::now without an environment clock')
     return Adt('std::time::SystemTime', None, {0: m.env.now_ns(m)})
 
-@I.rx(r'^(std::time::)?SystemTime::duration_since$')
+@I.rx(r'(^|::)SystemTime::duration_since$')
 def _systime_since(m, args, ci):
     a = deref_val(args[0])
     b = deref_val(args[1]) if not isinstance(args[1], Adt) else args[1]
@@ -917,3 +917,17 @@ def _int_minmax(m, raw, name):
     if ty is None:
         return None
     return ty.hi if mm.group(3) == 'MAX' else ty.lo
+
+@I.rx(r'^<(u8|u16|u32|u64|u128|usize|i8|i16|i32|i64|i128|isize) as Default>::default$')
+def _int_default(m, args, ci):
+    return 0
+
+@I.rx(r'^<bool as Default>::default$')
+def _bool_default(m, args, ci):
+    return False
+
+@I.rx(r'^<(std::ops::)?Range as Iterator>::next$|^(core|std)::iter::range::<impl Iterator for (std::ops::)?Range>::next$')
+def _range_next(m, args, ci):
+    it = as_iter(m, args[0])
+    x = it.next(m)
+    return none() if x is None else some(x)
